@@ -1,6 +1,7 @@
 package parser
 
 import (
+	"io"
 	"strings"
 	"time"
 
@@ -31,9 +32,13 @@ type hEvent struct {
 // shows the consumer the longest prefix of that sequence its policy accepts, so the sequence
 // is computed once, symbolically. Natively real goroutines run with a watchdog.
 func hObserve(src string, policy int) (seen []hEvent, producerDone bool, stuck bool) {
+	return hObserveReader(func() io.Reader { return strings.NewReader(src) }, policy)
+}
+
+func hObserveReader(mk func() io.Reader, policy int) (seen []hEvent, producerDone bool, stuck bool) {
 	p := NewParser(NewDefaultConfig())
 	if verifEngine() {
-		p.ParseStream(strings.NewReader(src))
+		p.ParseStream(mk())
 		n := verifEventCount()
 		var all []hEvent
 		for i := 0; i < n; i++ {
@@ -58,7 +63,7 @@ func hObserve(src string, policy int) (seen []hEvent, producerDone bool, stuck b
 	}
 	exited := make(chan struct{})
 	go func() {
-		p.ParseStream(strings.NewReader(src))
+		p.ParseStream(mk())
 		close(exited)
 	}()
 	watchdog := time.After(2 * time.Second)
@@ -165,6 +170,43 @@ func Harness_channel_protocol() {
 			verifAssert("done-is-last", rest[len(rest)-1].kind == 2)
 		} else {
 			verifLabel("policy", "stop-at-first-error")
+		}
+	}
+	if policy == 1 {
+		verifAssert("producer-exits-after-drain", producerDone)
+	}
+}
+
+// Harness_channel_read_failure: the reader fails in the middle of the file. The callback parser
+// reports the failure (after the records completed before it); the channel parser must show the
+// consumer the same: those records, then that error, then (when draining) Done.
+func Harness_channel_read_failure() {
+	src := "d0:\n  a: 1\nd1:\n  b: 2\nd2:\n  c: 3\n"
+	failAt := int(verifInt("failAt", 0, int64(len(src))))
+	policy := verifChoose("policy", 2)
+	mk := func() io.Reader { return &hFlakyReader{data: src, failAt: failAt, chunk: 4096} }
+	ref := &hRec{}
+	refErr := ParseStreamCallback(mk(), NewDefaultConfig(), ref.cb)
+	seen, producerDone, stuck := hObserveReader(mk, policy)
+	verifCover("observed")
+	verifAssert("consumer-terminates", !stuck)
+	if stuck {
+		return
+	}
+	k := 0
+	for k < len(seen) && seen[k].kind == 0 {
+		k++
+	}
+	rest := seen[k:]
+	if refErr == nil {
+		verifLabel("input", "readable")
+		verifAssert("records-before-first-error", k == len(ref.nodes))
+		verifAssert("completion-after-records", len(rest) == 1 && rest[0].kind == 2)
+	} else {
+		verifLabel("input", "read-failure")
+		verifAssert("read-error-delivered", len(rest) >= 1 && rest[0].kind == 1)
+		if policy == 1 {
+			verifAssert("done-is-last", rest[len(rest)-1].kind == 2)
 		}
 	}
 	if policy == 1 {
